@@ -180,6 +180,8 @@ def hop(fmt, ir, cfg=None):
             kw = {"docstring_format": style, "emit_default_doc": edd}
             if "force_pk_id" in cfg:
                 kw["force_pk_id"] = cfg["force_pk_id"]
+            if fmt == "sqlalchemy_table":
+                kw["name"] = ir.get("name") or "config_tbl"   # the parser requires binding name == table name
             node = em(ir, **kw)
             src = to_code(node)
             pr = getattr(cdd.sqlalchemy.parse, fmt)
